@@ -18,7 +18,7 @@ out = [f'''
 
 {len(rows)} changes to go-gorm/gorm were written by fresh sub-agents that saw only the text of one
 property and a scratch worktree (never /verif): {cnt[1][0]} in a first round (two per property), {cnt[2][0]} in a second
-(three per property), {cnt[3][0]} in a third, {cnt[4][0]} in a fourth, {cnt[5][0]} in a fifth and {cnt[6][0]} in a sixth (two per property each; a property
+(three per property), {cnt[3][0]} in a third, {cnt[4][0]} in a fourth, {cnt[5][0]} in a fifth, {cnt[6][0]} in a sixth and {cnt[7][0]} in a seventh (two per property each; a property
 has fewer where an agent delivered only one change that passed the whole suite, where a delivered change
 could not be confirmed, or where a change was retired, see below). From round 2 on the agents were told which
 functions earlier rounds had changed and were asked for other mechanisms: error paths, second uses of a
@@ -29,7 +29,7 @@ change both modules build, the full existing suite passes, the demonstration fai
 re-runs the property's check against every change.
 
 **Missed by the check as it stood when the change arrived: round 1: {cnt[1][1]} of {cnt[1][0]}; round 2: {cnt[2][1]} of {cnt[2][0]};
-round 3: {cnt[3][1]} of {cnt[3][0]}; round 4: {cnt[4][1]} of {cnt[4][0]}; round 5: {cnt[5][1]} of {cnt[5][0]}; round 6: {cnt[6][1]} of {cnt[6][0]}.** The share of misses does not fall from round to round: every round's
+round 3: {cnt[3][1]} of {cnt[3][0]}; round 4: {cnt[4][1]} of {cnt[4][0]}; round 5: {cnt[5][1]} of {cnt[5][0]}; round 6: {cnt[6][1]} of {cnt[6][0]}; round 7: {cnt[7][1]} of {cnt[7][0]}.** The share of misses does not fall from round to round: every round's
 testers were told what the earlier ones had changed and were steered towards rarer combinations (round 6:
 interactions of three features, rarely used entry points and flags, state kept between two calls), while
 the checks had only been extended for what had been delivered so far. With the exceptions listed at the end, every miss was a gap in the workload, not
@@ -38,7 +38,8 @@ quick tier now (last column: the check that fires). Patches were re-based (and r
 repair of gorm touched the same lines (C04-d, C11-b, C11-d, C11-e, C14-e, C17-b). Two round-3 changes
 repeat earlier ones (C07-f = C07-e, C14-f = C14-e), as do some of round 4 (C02-i = C02-g, C07-i = C07-e,
 C14-h = C14-e, C11-h = C08-c seen from C11, C09-i and C17-h close to C09-f and C17-e/f): independent
-testers keep finding the same weak spots, which is itself information. Retired (kept under
+testers keep finding the same weak spots, which is itself information (round 7 again: C07-n = C07-l, C07-p = C07-k,
+C14-n = C14-l, C17-p = C17-l, C01-p is the fault class of C11-l on another slice). Retired (kept under
 `/verif/retired/`, not part of the matrix): {', '.join(retired) or 'none'} - a change whose effect disappeared when
 the defect found through it was repaired in gorm (its meta.json says how it was caught on the tree before the repair).
 
@@ -80,6 +81,17 @@ What the misses had in common, and what was done about the pattern rather than t
   block that fails while the statement cache is reset (C14-m), composite-key re-reads and nullable BLOBs in
   schema-less maps (C15-l/m), a handle bound again to context.Background() (C18-l), Scan into a smaller type
   and batched creates in a dry run (C19-l/m), several entries of one callback name (C17-m).
+* **Round 7** (the testers were also asked for defects of the unchanged tree, see 8.3 and 8.3a): a handle that
+  already carries exactly 3 or 5-7 joins, then two sibling chains (C01-p); rows of one []map create naming
+  different keys (C01-n); the key of the model value given through Model() with a keyless Delete value, scopes
+  that register scopes (C02-n/p); an operation that fails when started straight from a reusable handle (C06-p);
+  FirstOrCreate and association mode as writes (C10-n/p); a relation of the model's own next to a same-named one
+  in an embedded struct, relations two embedding levels deep (C11-n/p); a value held by two relation fields
+  under FullSaveAssociations (C12-p); related models with delete hooks below SkipHooks (C13-p); used
+  destinations, LIMIT 0 and conditions handed over through Scopes (C15-n/p); a bound handle that is a chain
+  value and the context object of the driver call itself (C18-n/p); DryRun switched on by a scope (C19-n);
+  blanks in struct tags and fields shadowed by a same-named outer field (C20-n/p); the zeroValue soft-delete
+  variant, a hook that deletes through the handle it is given (C08-n/p); Connection blocks (C04-p, C14-p).
 * **Rounds 4 and 5, same five patterns, further out.** Second use: a handle derived from a chain that
   stays in use (C06-k), FindInBatches run from a handle (C06-j), a second Raw on a chain value, a handle per
   goroutine (C07-j), a record reachable twice in one Create (C13-h). Error paths: zero-row statements whose
@@ -128,7 +140,14 @@ an aside), a failed SAVEPOINT poisons the enclosing handle (C04), doubly wrapped
 save points through the statement cache (C14), empty named byte slices stored as NULL (C03), Model(slice)
 with a keyless last element drops the key condition (C10), AutoMigrate argument order (C20); plus
 KF-C17-15..18. Four seeded changes lost their effect through such a repair and were retired (C13-i, C09-j,
-C09-k, C03-m).
+C09-k, C03-m). Round 7 (defects 68-83 of section 8.3): a caller's column slice appended into by Select (C06),
+association joins appended into a shared FROM clause and not removed again after a nested path (C07, C06),
+numeric key strings beyond the int range read as raw SQL (C02), Scan / sub-queries / FindInBatches with scopes
+that return a session or add conditions (C19, C01, C15), used slice and map-slice destinations (C15, two),
+the unique tag of a shadowed field (C20), same-named relations in embedded structs (C11, two), a belongs-to
+key with a zero part under FullSaveAssociations (C12), scopes registered by the scopes of a grouped handle
+(C02); plus KF-C12-8 and KF-C02-1..4. Most of these came from the testers' asides or from the sub-agents that
+widened the workloads, not from a seeded change itself.
 ''')
 p = '/verif/DESIGN.md'
 s = open(p).read()
